@@ -68,6 +68,9 @@ func (c *FuncCtx) evalCall(st *State, x *ast.CallExpr) []*Val {
 				if r, ok := c.specBuiltin(st, f.Name, x); ok {
 					return r
 				}
+				if c.eng.isGhost(f.Name) {
+					return []*Val{c.ghostRead(st, f.Name, x)}
+				}
 				if sf, ok := c.eng.spec.Funcs[f.Name]; ok {
 					return []*Val{c.callSpecFunc(st, sf, x)}
 				}
@@ -1030,7 +1033,9 @@ func (c *FuncCtx) callRepo(st *State, key string, recv *recvInfo, x *ast.CallExp
 	fd := c.eng.funcs[key]
 	con := c.eng.spec.Contracts[key]
 	sig := c.eng.info.Defs[fd.Name].(*types.Func).Type().(*types.Signature)
+	c.lastVariadic = nil
 	args := c.evalArgs(st, sig, x)
+	variadic := c.lastVariadic
 	var rv *Val
 	if recv != nil {
 		rv = c.adaptRecv(st, recv, sig)
@@ -1045,6 +1050,7 @@ func (c *FuncCtx) callRepo(st *State, key string, recv *recvInfo, x *ast.CallExp
 		for _, w := range wb {
 			c.assign(st, w.target, c.loadStruct(st, w.ref, w.t))
 		}
+		c.formatFacts(st, key, sig, args, variadic, x)
 		return r
 	}
 	if len(wb) > 0 {
@@ -1093,8 +1099,11 @@ func (c *FuncCtx) evalArgs(st *State, sig *types.Signature, x *ast.CallExpr) []*
 			es := c.eng.sortOf(vt.Elem())
 			arr := fmt.Sprintf("((as const (Array Int %s)) %s)", es, c.eng.zeroOfSort(es, vt.Elem()))
 			k := 0
+			c.lastVariadic = nil
 			for _, a := range x.Args[n-1:] {
-				v := c.coerce(st, c.eval(st, a), vt.Elem())
+				raw := c.eval(st, a)
+				c.lastVariadic = append(c.lastVariadic, raw)
+				v := c.coerce(st, raw, vt.Elem())
 				arr = mkStore(arr, mkInt(int64(k)), v.S)
 				k++
 			}
@@ -1392,6 +1401,10 @@ func (c *FuncCtx) havocForCall(st *State, con *Contract, key string) {
 }
 
 func (c *FuncCtx) havocKey(st *State, k string, ft types.Type) {
+	if strings.HasPrefix(k, "ghost.") {
+		c.ghostHavoc(st, strings.TrimPrefix(k, "ghost."), nil)
+		return
+	}
 	parts := strings.SplitN(k, ".", 2)
 	c.heapArr(st, parts[0], parts[1], ft)
 	st.heap[k] = c.fresh("H_"+parts[0]+"_"+parts[1], fmt.Sprintf("(Array Int %s)", c.eng.sortOf(ft)))
@@ -1400,6 +1413,18 @@ func (c *FuncCtx) havocKey(st *State, k string, ft types.Type) {
 // havocLocation: "p.f" (one cell) or "T.f" with T a struct type name (the
 // whole field array).
 func (c *FuncCtx) havocLocation(st *State, e ast.Expr) {
+	switch g := e.(type) {
+	case *ast.CallExpr:
+		if id, ok := g.Fun.(*ast.Ident); ok && c.eng.isGhost(id.Name) {
+			c.ghostHavoc(st, id.Name, g.Args[0])
+			return
+		}
+	case *ast.Ident:
+		if c.eng.isGhost(g.Name) {
+			c.ghostHavoc(st, g.Name, nil)
+			return
+		}
+	}
 	sel, ok := e.(*ast.SelectorExpr)
 	if !ok {
 		limitf("assigns clause must list field locations")
@@ -1627,11 +1652,15 @@ func (c *FuncCtx) callExternal(st *State, key string, fn *types.Func, recv *Val,
 		limitf("%s: cannot resolve %s", c.eng.posStr(x.Pos()), key)
 	}
 	sig := fn.Type().(*types.Signature)
-	args := c.evalArgs(st, sig, x)
+	var args []*Val
 	savedArgs := c.curCallArgs
 	c.curCallArgs = x.Args
+	c.lastVariadic = nil
+	args = c.evalArgs(st, sig, x)
+	variadic := c.lastVariadic
 	r := c.applyContract(st, con, sig, recv, args, x.Pos(), key)
 	c.curCallArgs = savedArgs
+	c.formatFacts(st, key, sig, args, variadic, x)
 	return r
 }
 
@@ -1828,4 +1857,114 @@ func selRootIdent(sel *ast.SelectorExpr) *ast.Ident {
 			return nil
 		}
 	}
+}
+
+// formatFacts: for a printf-style call with a CONSTANT format whose verbs are
+// %s %v %d %c %% the formatted text is spelled out as a concatenation, stated
+// as a fact about fmt.Sprintf(format, args...) (the uninterpreted function the
+// contracts of Sprintf/Errorf/newErrorf talk about). Integers render through
+// the uninterpreted itoa, values with a String/Error method through the
+// corresponding pure function, anything else through fmtAny.
+func (c *FuncCtx) formatFacts(st *State, key string, sig *types.Signature, args []*Val, variadic []*Val, x *ast.CallExpr) {
+	fpos := map[string]int{"fmt.Sprintf": 0, "fmt.Errorf": 0, "fmt.Fprintf": 1, "newErrorf": 1}
+	p, ok := fpos[key]
+	if !ok || c.inSpec(st) || x.Ellipsis.IsValid() || p >= len(args) || p+1 >= len(args) {
+		return
+	}
+	format, ok2 := smtStringToGo(args[p].S)
+	if !ok2 {
+		return
+	}
+	var parts []string
+	lit := func(s string) {
+		if s != "" {
+			parts = append(parts, smtString(s))
+		}
+	}
+	ai := 0
+	cur := ""
+	for i := 0; i < len(format); i++ {
+		ch := format[i]
+		if ch != '%' {
+			cur += string(ch)
+			continue
+		}
+		if i+1 >= len(format) {
+			return
+		}
+		i++
+		verb := format[i]
+		if verb == '%' {
+			cur += "%"
+			continue
+		}
+		if ai >= len(variadic) {
+			return
+		}
+		a := variadic[ai]
+		ai++
+		var t string
+		switch {
+		case (verb == 's' || verb == 'v') && a.Sort == "String":
+			t = a.S
+		case (verb == 'd' || verb == 'v') && a.Sort == "Int" && isIntegerType(a.T):
+			c.eng.declareUF("itoa", "(declare-fun itoa (Int) String)")
+			t = app("itoa", a.S)
+		case verb == 'c' && a.Sort == "Int":
+			c.eng.declareUF("runeStr", "(declare-fun runeStr (Int) String)")
+			t = app("runeStr", a.S)
+		case verb == 's' || verb == 'v':
+			t = c.stringerTerm(st, a)
+		default:
+			return
+		}
+		lit(cur)
+		cur = ""
+		parts = append(parts, t)
+	}
+	lit(cur)
+	if ai != len(variadic) {
+		return
+	}
+	text := `""`
+	for _, pt := range parts {
+		text = strConcat(text, pt)
+	}
+	// the Sprintf term over the same (boxed) arguments
+	uf := "uf_fmt_Sprintf"
+	argsSort := args[p+1].Sort
+	c.eng.declareUF(uf, fmt.Sprintf("(declare-fun %s (String %s) String)", uf, argsSort))
+	st.assume(mkEq(app(uf, args[p].S, args[p+1].S), text))
+}
+
+func isIntegerType(t types.Type) bool {
+	if t == nil {
+		return true
+	}
+	b, ok := under(t).(*types.Basic)
+	return ok && b.Info()&types.IsInteger != 0
+}
+
+// stringerTerm: how fmt renders a non-string value with %s / %v.
+func (c *FuncCtx) stringerTerm(st *State, a *Val) string {
+	if a.T != nil {
+		if obj, _, _ := types.LookupFieldOrMethod(a.T, true, c.eng.pkg.Types, "Error"); obj != nil {
+			if _, isFn := obj.(*types.Func); isFn && a.Sort == "Iface" {
+				c.eng.declareUF("uf_error_Error", "(declare-fun uf_error_Error (Iface) String)")
+				return app("uf_error_Error", a.S)
+			}
+		}
+		if obj, _, _ := types.LookupFieldOrMethod(a.T, true, c.eng.pkg.Types, "String"); obj != nil {
+			if fn, isFn := obj.(*types.Func); isFn {
+				if k, ok := c.eng.fobjs[fn]; ok {
+					uf := "uf_" + sortIdent(strings.ReplaceAll(k, ".", "_"))
+					c.eng.declareUF(uf, fmt.Sprintf("(declare-fun %s (%s) String)", uf, a.Sort))
+					return app(uf, a.S)
+				}
+			}
+		}
+	}
+	uf := "fmtAny_" + sortIdent(a.Sort)
+	c.eng.declareUF(uf, fmt.Sprintf("(declare-fun %s (%s) String)", uf, a.Sort))
+	return app(uf, a.S)
 }
